@@ -10,6 +10,7 @@ import GormModel.Lemmas.StmtReuse
 import GormModel.Lemmas.SchemaParse
 import GormModel.Lemmas.SoftDeleteMode
 import GormModel.Lemmas.AssocScope
+import GormModel.Lemmas.PreloadAssign
 import GormModel.Props.C02
 namespace Gorm
 
